@@ -31,20 +31,20 @@ def run(ctx):
     )
     run.trusted_base = ["CPython ast", "spec/stix20.json, spec/stix21.json, spec/decorators.json"]
     run.assumptions = ["call binding semantics of Python as encoded in sa/callgraph.py"]
-    rule_table(ctx)
-    rule_clean_arity(ctx)
-    rule_ref_generics(ctx)
-    rule_api_domain(ctx)
-    rule_container_dispatch(ctx)
-    rule_absent_values(ctx)
+    ctx.do(rule_table)
+    ctx.do(rule_clean_arity)
+    ctx.do(rule_ref_generics)
+    ctx.do(rule_api_domain)
+    ctx.do(rule_container_dispatch)
+    ctx.do(rule_absent_values)
     from .regexlang import rule_regex_languages
-    rule_regex_languages(ctx, "C03.regex-language", ["complete"])
+    ctx.do(rule_regex_languages, "C03.regex-language", ["complete"])
     run.floor("C03.regex-language", 5)
     from .C08 import rule_descends, rule_positional_index, rule_syntax_agreement, rule_truthiness
-    rule_truthiness(ctx, rule_id="C03.selector-acceptance")
-    rule_positional_index(ctx, rule_id="C03.selector-acceptance")
-    rule_syntax_agreement(ctx, rule_id="C03.selector-acceptance", language_only=True)
-    rule_descends(ctx, rule_id="C03.selector-acceptance")
+    ctx.do(rule_truthiness, rule_id="C03.selector-acceptance")
+    ctx.do(rule_positional_index, rule_id="C03.selector-acceptance")
+    ctx.do(rule_syntax_agreement, rule_id="C03.selector-acceptance", language_only=True)
+    ctx.do(rule_descends, rule_id="C03.selector-acceptance")
 
 
 def rule_table(ctx):
